@@ -1097,21 +1097,32 @@ def trlog(T, check=True, twist=False):
         elif abs(np.trace(R) + 1) < 100 * _eps:
             # check for trace = -1
             #   rotation by +/- pi, +/- 3pi etc.
-            diagonal = R.diagonal()
-            k = diagonal.argmax()
-            mx = diagonal[k]
-            I = np.eye(3)
-            col = R[:, k] + I[:, k]
-            w = col / np.sqrt(2 * (1 + mx))
-            theta = math.pi
+            # near a half turn the axis comes from the symmetric part,
+            # (R + R')/2 - cos(theta) I = (1 - cos(theta)) w w', using its largest diagonal
+            # element; the angle (pi only to within the width of this branch) from
+            # sin(theta) = |vex(R - R')|/2 and cos(theta) = (tr(R) - 1)/2; the sign of the
+            # axis is taken from the skew-symmetric part
+            c = (np.trace(R) - 1) / 2
+            B = (R + R.T) / 2 - c * np.eye(3)
+            k = B.diagonal().argmax()
+            w = B[:, k] / math.sqrt((1 - c) * B[k, k])
+            li = base.vex((R - R.T) / 2)
+            theta = math.atan2(base.norm(li), c)
+            if np.dot(w, li) < 0:
+                w = -w
             if twist:
                 return w * theta
             else:
                 return base.skew(w * theta)
         else:
             # general case
-            theta = math.acos((np.trace(R) - 1) / 2)
-            skw = (R - R.T) / 2 / math.sin(theta)
+            # (R - R')/2 = sin(theta) skew(unit axis): atan2 of its magnitude and of
+            # cos(theta) = (tr(R) - 1)/2 is accurate for small angles and near pi,
+            # where acos of the trace alone loses the angle
+            skw = (R - R.T) / 2
+            st = base.norm(base.vex(skw))
+            theta = math.atan2(st, (np.trace(R) - 1) / 2)
+            skw = skw / st
             if twist:
                 return base.vex(skw * theta)
             else:
